@@ -411,5 +411,10 @@ func failK(o *hxlib.Out, sig string, detail map[string]any) {
 		return
 	}
 	detail["sig"] = sig
+	if _, ok := detail["process_environment"]; !ok {
+		// the environment this harness process runs in is part of every failing case (checks/C18.py starts the
+		// child processes under different GOMAXPROCS / GOGC); the env mode adds the environment of the step
+		detail["process_environment"] = processEnv()
+	}
 	o.OracleFails = append(o.OracleFails, detail)
 }
